@@ -13,7 +13,7 @@ pub fn property() -> Property {
     Property {
         id: "C04",
         level: "exploration",
-        rule: "Generator-built response heads (status 100..999 exhaustively; reason phrases absent/multi-word/UTF-8/long; version tokens HTTP/1.1, HTTP/1.0, ICY, arbitrary; header lists of 0..max_headers fields with names over the RFC token alphabet, values over visible ASCII + inner spaces + obs-text + empty, surrounding blanks, adjacent and interleaved duplicates, bare-LF continuations, lines up to 16 000 bytes, blocks > 8 KiB, exactly max_headers fields for max_headers in {1,2,7,100,1000}; Transfer-Encoding: chunked inserted at a random position) served under all 2^(n-1) segmentations of a 14-byte head (exhaustive), bytewise, every single split, or random segments. Oracle: status() == code sent; for every name the get_all() sequence equals the generator's values in wire order after (trim spaces, LF -> space); total count equal; Transfer-Encoding absent. Non-trivial: >= 1 header field or >= 2 segments; distinct = hash(head bytes, segmentation, max_headers).",
+        rule: "Generator-built response heads (status 100..999 exhaustively; reason phrases absent/multi-word/UTF-8/Latin-1 and other non-UTF-8 obs-text/long; Content-Encoding (gzip, deflate, br, ...) and Content-Length fields that the body pipeline consumes; version tokens HTTP/1.1, HTTP/1.0, ICY, arbitrary; header lists of 0..max_headers fields with names over the RFC token alphabet, values over visible ASCII + inner spaces + obs-text + empty, surrounding blanks, adjacent and interleaved duplicates, bare-LF continuations, lines up to 16 000 bytes, blocks > 8 KiB, exactly max_headers fields for max_headers in {1,2,7,100,1000}; Transfer-Encoding: chunked inserted at a random position) served under all 2^(n-1) segmentations of a 14-byte head (exhaustive), bytewise, every single split, or random segments. Oracle: status() == code sent; for every name the get_all() sequence equals the generator's values in wire order after (trim spaces, LF -> space); total count equal; Transfer-Encoding absent. Non-trivial: >= 1 header field or >= 2 segments; distinct = hash(head bytes, segmentation, max_headers).",
         assumptions: &["only syntactically valid heads are generated (invalid names/values belong to C05)", "HTAB padding and blanks before the colon are not generated (the statement speaks of spaces)"],
         min_nontrivial: |t| t.pick(5_000, 100_000),
         gens,
@@ -54,7 +54,7 @@ impl Field {
 pub struct Head {
     pub version: String,
     pub code: u16,
-    pub reason: Option<String>,
+    pub reason: Option<Vec<u8>>,
     pub fields: Vec<Field>,
     pub chunked: bool,
 }
@@ -67,7 +67,7 @@ impl Head {
         w.extend_from_slice(self.code.to_string().as_bytes());
         if let Some(r) = &self.reason {
             w.push(b' ');
-            w.extend_from_slice(r.as_bytes());
+            w.extend_from_slice(r);
         }
         w.extend_from_slice(b"\r\n");
         for f in &self.fields {
@@ -252,12 +252,14 @@ pub fn check_head(ctx: &mut Ctx, head: &Head, seg: &Segmentation, max_headers: O
 fn run_status(ctx: &mut Ctx, rng: &mut Rng, index: u64) {
     let code = 100 + index as u16;
     let version = *rng.pick(&["HTTP/1.1", "HTTP/1.0", "ICY", "H", "HTTP/2", "xyz-!"]);
-    let reason = match index % 5 {
+    let reason: Option<Vec<u8>> = match index % 7 {
         0 => None,
-        1 => Some("OK".to_owned()),
-        2 => Some("Multiple Words In The Reason Phrase".to_owned()),
-        3 => Some("Grüße ünd 日本語".to_owned()),
-        _ => Some("r".repeat(3000)),
+        1 => Some(b"OK".to_vec()),
+        2 => Some(b"Multiple Words In The Reason Phrase".to_vec()),
+        3 => Some("Grüße ünd 日本語".as_bytes().to_vec()),
+        4 => Some(b"Pas trouv\xe9 (Latin-1 obs-text)".to_vec()),
+        5 => Some(vec![0x80, 0xff, 0xfe, b' ', 0xa0]),
+        _ => Some(vec![b'r'; 3000]),
     };
     let head = Head { version: version.to_owned(), code, reason, fields: vec![Field { name: "X-Code".into(), raw_value: format!(" {code}").into_bytes() }], chunked: false };
     let seg = if index % 3 == 0 { Segmentation::Bytewise } else { Segmentation::Whole };
@@ -288,7 +290,7 @@ fn fixed_head(i: usize) -> Head {
         let at = rng.range(0, fields.len());
         fields.insert(at, Field { name: "Transfer-Encoding".into(), raw_value: b" chunked".to_vec() });
     }
-    Head { version: "HTTP/1.1".into(), code: 200 + (i as u16 % 7), reason: Some("OK".into()), fields, chunked }
+    Head { version: "HTTP/1.1".into(), code: 200 + (i as u16 % 7), reason: Some(b"OK".to_vec()), fields, chunked }
 }
 const N_FIXED: usize = 10;
 fn splitpoints_count() -> u64 {
@@ -335,6 +337,17 @@ fn run_random(ctx: &mut Ctx, rng: &mut Rng, _index: u64) {
         let max_len = if big_lines { 15_900 - name.len() } else { 200 };
         fields.push(random_field(rng, ctx, name, max_len));
     }
+    if rng.chance(1, 4) && fields.len() < 98 {
+        // headers the body pipeline itself looks at: they must be reported like any other field
+        let at = rng.range(0, fields.len());
+        let enc: &[u8] = *rng.pick(&[b"gzip".as_slice(), b"deflate", b"br", b"identity, gzip", b"GZIP"]);
+        fields.insert(at, Field { name: rng.pick(&["Content-Encoding", "content-encoding"]).to_string(), raw_value: [b" ".as_slice(), enc].concat() });
+        if rng.bool() {
+            let at = rng.range(0, fields.len());
+            fields.insert(at, Field { name: "Content-Length".into(), raw_value: b" 0".to_vec() });
+        }
+        ctx.count("representation_headers_cases", 1);
+    }
     let chunked = rng.chance(1, 3) && fields.len() < 100;
     if chunked {
         let at = rng.range(0, fields.len());
@@ -343,11 +356,13 @@ fn run_random(ctx: &mut Ctx, rng: &mut Rng, _index: u64) {
     }
     let code = 100 + rng.below(900) as u16;
     // codes that imply "no body" are fine: the body is not read here
-    let reason = match rng.below(4) {
+    let reason: Option<Vec<u8>> = match rng.below(6) {
         0 => None,
-        1 => Some("OK".to_owned()),
-        2 => Some("Not Exactly What You Asked For".to_owned()),
-        _ => Some("ü".repeat(rng.range(1, 50))),
+        1 => Some(b"OK".to_vec()),
+        2 => Some(b"Not Exactly What You Asked For".to_vec()),
+        3 => Some("ü".repeat(rng.range(1, 50)).into_bytes()),
+        4 => Some((0..rng.range(1, 30)).map(|_| 0x80 + rng.below(0x80) as u8).collect()),
+        _ => Some(b"caf\xe9 \xff".to_vec()),
     };
     let version = rng.pick(&["HTTP/1.1", "HTTP/1.1", "HTTP/1.0", "ICY", "garbage-without-space"]).to_string();
     let head = Head { version, code, reason, fields, chunked };
@@ -370,7 +385,7 @@ fn run_limits(ctx: &mut Ctx, rng: &mut Rng, _index: u64) {
         let at = rng.usize_below(fields.len());
         fields[at] = Field { name: "Transfer-Encoding".into(), raw_value: b" chunked".to_vec() };
     }
-    let head = Head { version: "HTTP/1.1".into(), code: 200, reason: Some("OK".into()), fields, chunked };
+    let head = Head { version: "HTTP/1.1".into(), code: 200, reason: Some(b"OK".to_vec()), fields, chunked };
     ctx.count("exactly_max_headers_cases", 1);
     let seg = if rng.bool() { Segmentation::Whole } else { respgen::random_segmentation(rng, head.wire().len(), &[]) };
     check_head(ctx, &head, &seg, Some(max), "limits");
